@@ -219,7 +219,7 @@ func (eng *Engine) checkProperty(prop, tier string) int {
 	nObl, nDis, nKnown, nCanary, nCanaryOK := 0, 0, 0, 0, 0
 	byBackend := map[string]int{}
 	solverSecs := 0.0
-	var samples []interface{}
+	var samples, fillSamples []interface{}
 	var oj []oblJSON
 	var knownPrinted []string
 	for _, o := range all {
@@ -241,8 +241,11 @@ func (eng *Engine) checkProperty(prop, tier string) int {
 		if o.Status == "proved" {
 			nDis++
 			byBackend[strings.TrimSuffix(o.Solver, " (cached)")]++
-			if len(samples) < 6 {
+			// samples: contract clauses first (what the property is made of), safety obligations only to fill up
+			if (o.Kind == "post" || o.Kind == "assert" || o.Kind == "inv-preserve") && len(samples) < 8 {
 				samples = append(samples, map[string]string{"obligation": o.Name, "goal": truncate(o.Src, 300), "solver": o.Solver})
+			} else if len(fillSamples) < 3 {
+				fillSamples = append(fillSamples, map[string]string{"obligation": o.Name, "goal": truncate(o.Src, 300), "solver": o.Solver})
 			}
 			continue
 		}
@@ -295,6 +298,9 @@ func (eng *Engine) checkProperty(prop, tier string) int {
 		violations++
 		fmt.Printf("VIOLATION property=%s replay=%s no-failing-input-found\n", id, filepath.Join(replayDir, "no-obligations.json"))
 		_ = os.WriteFile(filepath.Join(replayDir, "no-obligations.json"), []byte("{\"reason\": \"no obligation was generated for this property\"}\n"), 0o644)
+	}
+	if len(samples) < 3 {
+		samples = append(samples, fillSamples...)
 	}
 	// evidence
 	var fns []string
